@@ -243,7 +243,8 @@ Deliver(m, keep) ==
     /\ LET n == m.to IN
        \/ HandleGossip(n, m, keep) \/ HandleState(n, m, keep) \/ HandleTxSet(n, m, keep)
        \/ HandleListQ(n, m, keep) \/ HandleRangeQ(n, m, keep) \/ HandleList(n, m, keep)
-    /\ Log([a |-> "Deliver", kind |-> m.kind, from |-> m.from, to |-> m.to, num |-> m.num, keep |-> keep, cid |-> m.cid])
+    /\ Log([a |-> "Deliver", kind |-> m.kind, from |-> m.from, to |-> m.to, num |-> m.num, keep |-> keep, cid |-> m.cid,
+            new |-> LET d == conv'[m.to] \ conv[m.to] IN IF d = {} THEN NoId ELSE (CHOOSE c \in d : TRUE).cid])
     /\ UNCHANGED <<lost, expired, injected, created>>
 
 Lose(m) ==
@@ -259,7 +260,7 @@ Expire(n, c) ==
        \/ expired < MaxExpire
     /\ expired' = IF \E m \in net : m.cid = c.cid THEN expired + 1 ELSE expired
     /\ conv' = [conv EXCEPT ![n] = @ \ {c}]
-    /\ Log([a |-> "Expire", n |-> n, kind |-> c.kind, cid |-> c.cid])
+    /\ Log([a |-> "Expire", n |-> n, kind |-> c.kind, cid |-> c.cid, lc |-> c.lc, lo |-> c.lo, hi |-> c.hi, nrefs |-> Cardinality(c.refs)])
     /\ UNCHANGED <<txs, lastc, gq, glog, net, lost, dups, injected, created>>
 
 \* a transaction is created locally (network.CreateTransaction -> State.Add -> gossip notifier)
